@@ -314,6 +314,32 @@ Proof.
   intros _. revert H1. consts. lia.
 Qed.
 
+(** Forwards to an SCID without a channel (phantom receive, interception): whatever the kind of SCID
+    and the interception flags, an accepted HTLC asks for no more than it carries and leaves the
+    minimum delta; in particular what [HTLCIntercepted] reports as [expected_outbound_amount_msat]
+    (= the onion's amount) never exceeds [inbound_amount_msat]. *)
+Lemma no_channel_admission_sound k fi fu h in_amt in_cltv out_amt out_cltv b :
+  no_channel_admission k fi fu h in_amt in_cltv out_amt out_cltv = ROk b ->
+  out_amt <= in_amt /\ out_cltv + MIN_CLTV_EXPIRY_DELTA <= in_cltv /\
+  in_cltv > h + HTLC_FAIL_BACK_BUFFER /\ out_cltv > h + LATENCY_GRACE_PERIOD_BLOCKS /\
+  (b = true -> needs_intercept_unknown k fi fu = true) /\ (b = false -> k = ScidPhantom).
+Proof.
+  unfold no_channel_admission, unknown_chan_amt_exceeds, unknown_chan_cltv_delta_too_small,
+    unknown_chan_cltv_delta, sat_sub.
+  destruct (Z.ltb_spec in_amt out_amt) as [H1|H1]; [discriminate|].
+  destruct (Z.ltb_spec (Z.max 0 (in_cltv - out_cltv)) MIN_CLTV_EXPIRY_DELTA) as [H2|H2]; [discriminate|].
+  assert (Hd : out_cltv + MIN_CLTV_EXPIRY_DELTA <= in_cltv) by (revert H2; consts; lia).
+  destruct k; cbn [needs_intercept_unknown].
+  - destruct (check_incoming_htlc_cltv h out_cltv in_cltv MIN_CLTV_EXPIRY_DELTA) as [[]|e] eqn:E; [|discriminate].
+    intros [= <-]. apply cltv_ok_iff in E. repeat split; try lia; try discriminate; reflexivity.
+  - destruct fi; [|discriminate].
+    destruct (check_incoming_htlc_cltv h out_cltv in_cltv MIN_CLTV_EXPIRY_DELTA) as [[]|e] eqn:E; [|discriminate].
+    intros [= <-]. apply cltv_ok_iff in E. repeat split; try lia; try discriminate; reflexivity.
+  - destruct fu; [|discriminate].
+    destruct (check_incoming_htlc_cltv h out_cltv in_cltv MIN_CLTV_EXPIRY_DELTA) as [[]|e] eqn:E; [|discriminate].
+    intros [= <-]. apply cltv_ok_iff in E. repeat split; try lia; try discriminate; reflexivity.
+Qed.
+
 (** ** [amt_to_forward_msat] *)
 
 (** the closure [fee_for] of [amt_to_forward_msat] *)
